@@ -289,6 +289,8 @@ def gen_case(r: random.Random) -> Dict[str, Any]:
     def place(lab: str) -> Tuple[float, float]:
         i = target.index(lab) if lab in target else r.randrange(nl)
         where = r.choice(["in", "in", "edge_in", "edge_out", "out"])
+        if r.random() < 0.04:
+            return 0.0, 0.0  # exactly above / below the ego origin: a planar distance of exactly zero is a distance
         eps = r.choice([1e-4, 1e-2, 0.5])
         if kind == "xy":
             bx, by = p["max_x_position_list"][i], p["max_y_position_list"][i]
